@@ -565,6 +565,9 @@ func (t *queryTerm) QueryConditions(pc *parserContext) (ConditionsSet, error) {
 						SubQueries: []string{t.SubQuery, e.Variable.Sub},
 						Mask:       flagsStreamProtocol,
 					}).invert()...)
+				} else {
+					// the protocol of the stream itself: always fulfilled
+					conds = append(conds, Conditions{})
 				}
 				continue
 			}
